@@ -45,11 +45,11 @@ def oracle(tier, rng, seeds):
     calls = effects.api_calls(rng, 60)
     heavy = [c for c in calls if c[0] in ('lonlat_to_cell', 'cell_to_lonlat', 'cell_to_boundary')]
     pairs = []
-    for i in range(10 if tier == 'quick' else 60):
+    for i in range(10 if tier == 'quick' else 30):
         a = rng.choice(heavy)
         pairs.append((a, rng.choice(heavy)))
         pairs.append((a, a))
-    for i in range(4 if tier == 'quick' else 30):
+    for i in range(4 if tier == 'quick' else 20):
         pairs.append((rng.choice(calls), rng.choice(calls)))
     # inventory-directed pairs: calls that both run through a function touching shared state (writes, or uses the committed inventory does not list)
     ref = json.load(open(os.path.join(common.VERIF, 'shared_state.json')))
@@ -58,7 +58,7 @@ def oracle(tier, rng, seeds):
     if dpairs:
         # every line event between a touch of the shared object and the end of that frame (callees included), B running through the same code
         f0, s0 = effects.preemption_search(rng, dpairs, 400 if tier == 'quick' else 3000, hot=crit, only_hot=True, stop_after=1)
-    f1, s1 = effects.preemption_search(rng, ('auto', pairs, 6 if tier == 'quick' else 60), 60 if tier == 'quick' else 600, hot=crit)
+    f1, s1 = effects.preemption_search(rng, ('auto', pairs, 6 if tier == 'quick' else 30), 60 if tier == 'quick' else 250, hot=crit)
     f1 = f0 + f1
     s1['preemption_points'] += s0['preemption_points']
     s1['directed_pairs'] = len(dpairs); s1['directed_points'] = s0['preemption_points']; s1['hot_functions'] = reach
